@@ -75,6 +75,8 @@ def run(tier, replay=None, which=WHICH, pid=PID, harness_fn=None, cli_fn=None, c
         v.count("rejected", o["rejected"])
         v.count("rejected_with_source_position", o["located"])
         v.count("sanitizer_report_blocks", o["san_blocks"])
+        for k, c in o.get("errclasses", {}).items():
+            v.hist("rejections_by_error_class", k, c)
         for k, c in o["classes"].items():
             v.hist("cases_by_generator_class", k, c)
         for k, c in o["diags"].items():
